@@ -65,6 +65,10 @@ def schema_list(tier):
                                                                            {"type": "error", "name": "Denied", "fields": [{"name": "c", "type": "int"}]}, "string"]},
                                                    {"name": "again", "type": ["Denied", "NotFound"]}]},
         {"type": "record", "name": "Zero", "fields": [{"name": "z", "type": {"type": "fixed", "name": "Z0", "size": 0}}, {"name": "zz", "type": {"type": "array", "items": "Z0"}}]},
+        # a nested type whose namespace is the enclosing record's full name and whose simple name equals the field's name
+        {"type": "record", "name": "Order", "namespace": "shop", "fields": [
+            {"name": "Item", "type": {"type": "record", "name": "Item", "namespace": "shop.Order", "fields": [{"name": "sku", "type": "string"}]}},
+            {"name": "Kind", "type": {"type": "enum", "name": "shop.Order.Kind", "symbols": ["A"]}}, {"name": "more", "type": {"type": "array", "items": "shop.Order.Item"}}]},
         {"type": "record", "name": "Job", "fields": [
             {"name": "policy", "type": {"type": "record", "name": "Policy", "fields": [
                 {"name": "retries", "type": "int", "default": 0}, {"name": "label", "type": ["null", "string"], "default": None},
